@@ -14,7 +14,7 @@ class LazilyIndexedWrapper(BackendArray):
         self.array = array
         self.lock = lock
         self.shape = array.shape
-        self.dtype = array.dtype
+        self.dtype = np.dtype(array.dtype)
 
     def __getitem__(self, key: indexing.ExplicitIndexer) -> np.typing.ArrayLike:
         return indexing.explicit_indexing_adapter(
